@@ -297,18 +297,29 @@ pub trait VfFromBytes: Sized {
     spec fn width() -> int;
     spec fn be_inv(s: Seq<u8>) -> Self;
     fn vf_from_be_slice(s: &[u8]) -> (r: Self) requires s@.len() == Self::width() ensures r == Self::be_inv(s@);
+    spec fn le_inv(s: Seq<u8>) -> Self;
+    fn vf_from_le_slice(s: &[u8]) -> (r: Self) requires s@.len() == Self::width() ensures r == Self::le_inv(s@);
 }
+pub uninterp spec fn le64_inv(s: Seq<u8>) -> u64;
+pub uninterp spec fn le32_inv(s: Seq<u8>) -> u32;
+pub broadcast proof fn ax_le64_inv(n: u64) ensures le64_inv(#[trigger] le64(n)) == n { admit(); }
 impl VfFromBytes for u64 {
     open spec fn width() -> int { 8 }
     open spec fn be_inv(s: Seq<u8>) -> u64 { be64_inv(s) }
     #[verifier::external_body]
     fn vf_from_be_slice(s: &[u8]) -> (r: u64) { unimplemented!() }
+    open spec fn le_inv(s: Seq<u8>) -> u64 { le64_inv(s) }
+    #[verifier::external_body]
+    fn vf_from_le_slice(s: &[u8]) -> (r: u64) { unimplemented!() }
 }
 impl VfFromBytes for u32 {
     open spec fn width() -> int { 4 }
     open spec fn be_inv(s: Seq<u8>) -> u32 { be32_inv(s) }
     #[verifier::external_body]
     fn vf_from_be_slice(s: &[u8]) -> (r: u32) { unimplemented!() }
+    open spec fn le_inv(s: Seq<u8>) -> u32 { le32_inv(s) }
+    #[verifier::external_body]
+    fn vf_from_le_slice(s: &[u8]) -> (r: u32) { unimplemented!() }
 }
 pub struct Storage { pub db: Db, pub x: u8 }
 impl Storage {
